@@ -132,10 +132,13 @@ class DashTiming:
             'elapsed_fragments=%d',
             self.elapsedTime.total_seconds() * self.stream_reference.timescale //
             self.stream_reference.segment_duration)
-        if self.elapsedTime.total_seconds() == 0:
-            logging.info('Elapsed time is zero, moving availabilityStartTime back one day')
-            self.elapsedTime = datetime.timedelta(days=1)
-            self.availabilityStartTime -= self.elapsedTime
+        if self.elapsedTime.total_seconds() <= 0:
+            # availabilityStartTime is not in the past (e.g. start == now, or a
+            # clock drift larger than the age of the stream)
+            logging.info('Elapsed time is not positive, moving availabilityStartTime back')
+            days = 1 + int(-self.elapsedTime.total_seconds() // 86400)
+            self.availabilityStartTime -= datetime.timedelta(days=days)
+            self.elapsedTime = now - self.availabilityStartTime
         if self.elapsedTime.total_seconds() < self.timeShiftBufferDepth:
             self.timeShiftBufferDepth = int(self.elapsedTime.total_seconds())
         logging.debug('timeShiftBufferDepth: %d seconds', self.timeShiftBufferDepth)
